@@ -139,6 +139,15 @@ func vfAddrCheck(run *vfkit.Run, cs vfAddrCase) {
 		if err := comp.Connect(); err == nil {
 			run.Violation("C20/component-connects-ws", fmt.Sprintf("Component.Connect with %q succeeded", addr), cs)
 		}
+		// through the public constructor as well
+		cl, err := NewClient(&Config{TransportConfiguration: TransportConfiguration{Address: addr}, Jid: "u@example.org", Credential: Password("p")}, NewRouter(), func(error) {})
+		if err != nil {
+			run.Violation("C20/newclient-error", fmt.Sprintf("NewClient with address %q: %v", addr, err), cs)
+		} else if wt, ok := cl.transport.(*WebsocketTransport); !ok {
+			run.Violation("C20/ws-scheme-not-websocket:"+cs.Scheme, fmt.Sprintf("NewClient(%q) transport %T", addr, cl.transport), cs)
+		} else if wt.Config.Address != addr {
+			run.Violation("C20/ws-address-changed", fmt.Sprintf("NewClient(%q) dials %q", addr, wt.Config.Address), cs)
+		}
 		run.Count("ws_cases", 1)
 		run.Nontrivial("ws|" + addr)
 		return
